@@ -204,8 +204,12 @@ fn is_suffix(input: &[u8], rem: &[u8]) -> bool {
 pub fn op_dec<T: Ty>(arg: &Value) -> Value {
     let input = unhex(arg["hex"].as_str().unwrap_or(""));
     let mut out = serde_json::Map::new();
-    // decode
+    // decode (allocation envelope measured around the decoder alone, not the JSON rendering)
+    let live0 = LIVE.load(Ordering::Relaxed);
+    PEAK.store(live0, Ordering::Relaxed);
     let d = T::decode(&input);
+    let decode_peak = PEAK.load(Ordering::Relaxed).saturating_sub(live0);
+    out.insert("decode_alloc_peak".into(), json!(decode_peak));
     match &d {
         Ok((v, rem)) => {
             out.insert(
